@@ -31,6 +31,8 @@ type RecipeInput struct {
 	HasItems  bool     `json:"structured,omitempty"`
 	Items     []rlineJ `json:"items,omitempty"`
 	Lines     []B      `json:"lines_hex"`
+	// round 5: per-case entries below @W whose names have white space inside (r5_recipe_ws.go)
+	Ws []wsEntryJ `json:"ws_env,omitempty"`
 }
 
 // the fixed environment (paths use placeholders so that inputs replay anywhere):
@@ -202,6 +204,7 @@ var recipeSeq int
 func runRecipe(in Input) *common.Case {
 	ensureRecipeEnv()
 	ri := in.Recipe
+	defer materializeWs(ri)()
 	raw := common.Ss(ri.Lines)
 	lines := make([]string, len(raw))
 	for i, l := range raw {
@@ -245,7 +248,8 @@ func runRecipe(in Input) *common.Case {
 	desc["obs"] = map[string]interface{}{"exit_class": class, "stderr": msgs, "located": loc, "stdout": atoms}
 
 	// environment term
-	roots := q.HxList([]string{expand("@A"), expand("@B")})
+	wsRoots, wsProfs, wsAfiles := wsEnvTerms(ri)
+	roots := q.HxList(append([]string{expand("@A"), expand("@B")}, wsRoots...))
 	var profs, afiles []string
 	for _, k := range envOrder {
 		t := q.Pair(q.Hx(expand(k)), q.HxList(envAtoms[k]))
@@ -255,6 +259,7 @@ func runRecipe(in Input) *common.Case {
 			profs = append(profs, t)
 		}
 	}
+	profs, afiles = append(profs, wsProfs...), append(afiles, wsAfiles...)
 	env := q.App("MkEnv", q.Hx(cwd), roots, q.List(profs), q.List(afiles))
 	cmd := q.App("MkRC", q.Hx(expand(ri.Root)), q.Hx(expand(ri.Profile)), q.Hx(ri.Atoms), q.Hx(expand(ri.AtomsFile)))
 	items := q.None()
@@ -272,11 +277,17 @@ func runRecipe(in Input) *common.Case {
 	}
 	c.Coq = q.App("C17.MkCase", q.App("C17.IRecipe", env, cmd, items, q.HxList(lines)),
 		q.App("C17.ORecipe", q.N(uint64(class)), q.Bool(loc), q.HxList(atoms)))
-	c.Key = "recipe:" + strings.Join(raw, "\n") + fmt.Sprint(ri.Root, ri.Profile, ri.Atoms, ri.AtomsFile, ri.CwdRoot)
+	c.Key = "recipe:" + strings.Join(raw, "\n") + fmt.Sprint(ri.Root, ri.Profile, ri.Atoms, ri.AtomsFile, ri.CwdRoot) + wsKey(ri)
 	c.Nontrivial = true
 	c.Classes = []string{"recipe", fmt.Sprintf("recipe-exit%d", class)}
 	if !ri.HasItems {
 		c.Classes = append(c.Classes, "recipe-raw")
+	}
+	if wsInner(ri) {
+		c.Classes = append(c.Classes, "recipe-inner-ws")
+	}
+	if len(ri.Ws) > 0 {
+		c.Classes = append(c.Classes, "recipe-ws-siblings")
 	}
 	return c
 }
